@@ -141,8 +141,22 @@ def run_verus_unit(repo, unit_name, variant, workdir, log):
         src = text.split("\n")
         if d["line"] and d["line"] - 1 < len(src):
             clause = src[d["line"] - 1].strip()
+        import re as _re
+        # the clause the verifier points to: for postconditions the labelled "failed this postcondition" line
+        cl_line = d["line"]
+        for ln, lab in d["labels"]:
+            if "failed this postcondition" in lab or "failed precondition" in lab:
+                cl_line = ln
+        ctext = src[cl_line - 1].strip() if cl_line and cl_line - 1 < len(src) else (clause or "")
+        m_obl = _re.search(r"OBL ([A-Za-z0-9_\-]+)", ctext)
+        slug = m_obl.group(1) if m_obl else _re.sub(r"[^A-Za-z0-9]+", "_", ctext)[:60].strip("_")
+        oname = "%s::%s::%s::%s" % (vname, fn or "?", d["msg"], slug)
+        k = 2
+        while any(f["obligation"] == oname for f in res["failures"]):
+            oname = "%s::%s::%s::%s#%d" % (vname, fn or "?", d["msg"], slug, k)
+            k += 1
         res["failures"].append({
-            "obligation": "%s::%s::%s" % (vname, fn or "?", d["msg"]),
+            "obligation": oname,
             "function": fn, "kind": d["msg"], "clause": clause, "generated_line": d["line"],
             "origin": where,
             "related": [{"line": ln, "label": lab, "origin": lm.get(ln)} for ln, lab in d["labels"]],
@@ -314,6 +328,8 @@ def finish(prop, tier, seed, spec, results, canaries, t0, log):
 
 
 def write_evidence(prop, tier, seed, spec, results, canaries, t0, violations=0, known=(), extra=None):
+    if os.environ.get("VERIF_NO_EVIDENCE"):
+        return  # dev runs against scratch trees (bin/muttest) must not overwrite the evidence of /repo
     os.makedirs(os.path.join(ROOT, "evidence"), exist_ok=True)
     proof_units = [r for r in results if not r.get("bounded")]
     bounded = [r for r in results if r.get("bounded")]
